@@ -54,6 +54,16 @@ func (icounter *LogInputCounterSet) CountRecordDrop(record *LogRecord) { // xx:i
 	icounter.droppedRecordsLengthTotal.unwrittenValue += uint64(record.RawLength)
 }
 
+// RecountRecordPassAsDrop moves a record already counted by CountRecordPass to the dropped counters, for a record
+// dropped at the input after passing the parser
+//
+// It must be called before the next UpdateMetrics, i.e. in the same call that parsed the record
+func (icounter *LogInputCounterSet) RecountRecordPassAsDrop(record *LogRecord) {
+	icounter.passedRecordsCountTotal.unwrittenValue--
+	icounter.passedRecordsLengthTotal.unwrittenValue -= uint64(record.RawLength)
+	icounter.CountRecordDrop(record)
+}
+
 // UpdateMetrics writes unwritten values in the counter to underlying Prometheus counters
 func (icounter *LogInputCounterSet) UpdateMetrics() {
 	icounter.logCustomCounterHost.UpdateMetrics()
